@@ -350,7 +350,7 @@ func (m *urlModule) createURLPrototype() *goja.Object {
 		u.url = m.parseURL(arg.String(), true)
 		if u.searchParams != nil {
 			// keep the list a searchParams object already handed out looks at in line with the new query
-			u.searchParams = parseSearchQuery(u.url.RawQuery)
+			u.searchParams = parseQuery(u.url.RawQuery)
 			if u.searchParams == nil {
 				u.searchParams = make(searchParams, 0)
 			}
@@ -431,7 +431,7 @@ func (m *urlModule) createURLPrototype() *goja.Object {
 		u.url.RawQuery = strings.TrimPrefix(arg.String(), "?")
 		fixRawQuery(u.url)
 		if u.searchParams != nil {
-			u.searchParams = parseSearchQuery(u.url.RawQuery)
+			u.searchParams = parseQuery(u.url.RawQuery)
 			if u.searchParams == nil {
 				u.searchParams = make(searchParams, 0)
 			}
@@ -441,7 +441,7 @@ func (m *urlModule) createURLPrototype() *goja.Object {
 	// search Params
 	m.defineURLAccessorProp(p, "searchParams", func(u *nodeURL) interface{} {
 		if u.searchParams == nil {
-			sp := parseSearchQuery(u.url.RawQuery)
+			sp := parseQuery(u.url.RawQuery)
 			if sp == nil {
 				sp = make(searchParams, 0)
 			}
